@@ -232,6 +232,123 @@ pub fn ck_set_tombstones(cap: usize) {
     }
 }
 
+// ---------------- row operations on the key table: the table follows the rows of the map array ----------------
+/// numbering invariant: the live cells carry the row numbers 0..len (distinctness is part of `wf`)
+fn numbered(t: &Tab) -> bool {
+    let mut i = 0;
+    while i < t.cap {
+        if is_live(t.keys.data[i]) && t.indices[i] >= t.len {
+            return false;
+        }
+        i += 1;
+    }
+    true
+}
+fn keys_of(mk: &MapKeys) -> &Array<f64> {
+    match &mk.keys {
+        Value::Num(a) => a,
+        _ => unreachable!(),
+    }
+}
+/// A table whose cells follow `pat` (0 live, 1 tombstone, 2 empty).  Live keys are the fixed distinct numbers
+/// 1, 2, 3, … (the row operations never look at key values, only at liveness); the row numbers, the start slots
+/// and the operation's argument are symbolic.  Concrete liveness keeps every Vec length in `present_indices` concrete.
+fn pattern_table(cap: usize, pat: [u8; 3]) -> Tab {
+    let idx: [usize; 4] = kani::any();
+    let starts: [usize; 4] = kani::any();
+    let mut kb = [0.0f64; 4];
+    let mut i = 0;
+    while i < cap {
+        kb[i] = match pat[i] {
+            0 => (i + 1) as f64,
+            1 => TOMBSTONE_NAN,
+            _ => EMPTY_NAN,
+        };
+        kani::assume(idx[i] < 4 && starts[i] < cap);
+        i += 1;
+    }
+    let k = &kb[..cap];
+    let len = nlive(k);
+    kani::assume(wf(k, &idx, len, cap, &starts));
+    Tab { cap, keys: list(k), indices: idx, len, starts }
+}
+/// which: 0 drop(n), 1 take(n), 2 reverse, 3 rotate(by)
+pub fn ck_rowop(cap: usize, which: u8, pat: [u8; 3]) {
+    let t0 = pattern_table(cap, pat);
+    kani::assume(numbered(&t0));
+    let mut mk = MapKeys { keys: Value::Num(t0.keys), indices: t0.indices, cap, len: t0.len };
+    let n: usize = kani::any();
+    let by: isize = kani::any();
+    match which {
+        0 => mk.drop(n),
+        1 => mk.take(n),
+        2 => mk.reverse(),
+        _ => mk.rotate(by),
+    }
+    let m = if n < t0.len { n } else { t0.len };
+    let k = keys_of(&mk);
+    let mut i = 0;
+    while i < cap {
+        let was_live = is_live(t0.keys.data[i]);
+        let old = t0.indices[i];
+        if !was_live {
+            // free cells stay what they were (empty cells stay empty: probe chains are not broken or extended)
+            assert!(k.data[i].to_bits() == t0.keys.data[i].to_bits());
+        } else {
+            match which {
+                0 => {
+                    if old < m {
+                        assert!(k.data[i].is_any_tombstone());
+                    } else {
+                        assert!(k.data[i].to_bits() == t0.keys.data[i].to_bits() && mk.indices[i] == old - m);
+                    }
+                }
+                1 => {
+                    if old >= m {
+                        assert!(k.data[i].is_any_tombstone());
+                    } else {
+                        assert!(k.data[i].to_bits() == t0.keys.data[i].to_bits() && mk.indices[i] == old);
+                    }
+                }
+                2 => assert!(k.data[i].to_bits() == t0.keys.data[i].to_bits() && mk.indices[i] == t0.len - 1 - old),
+                _ => {
+                    // row p of a rotation by `by` comes from row p + by: the key of old row r now names row r - by (mod len)
+                    let want = (old as i128 - by as i128).rem_euclid(t0.len as i128) as usize;
+                    assert!(k.data[i].to_bits() == t0.keys.data[i].to_bits() && mk.indices[i] == want);
+                }
+            }
+        }
+        i += 1;
+    }
+    match which {
+        0 => assert!(mk.len == t0.len - m),
+        1 => assert!(mk.len == m),
+        _ => assert!(mk.len == t0.len),
+    }
+    assert!(wf(&k.data, &mk.indices, mk.len, cap, &t0.starts));
+    let t1 = Tab { cap, keys: *k, indices: mk.indices, len: mk.len, starts: t0.starts };
+    assert!(numbered(&t1));
+}
+/// every liveness pattern of a table of capacity `cap`
+pub fn ck_rowop_all(cap: usize, which: u8) {
+    let mut p0 = 0u8;
+    while p0 < 3 {
+        let mut p1 = 0u8;
+        while p1 < 3 {
+            if cap == 2 {
+                ck_rowop(2, which, [p0, p1, 2]);
+            } else {
+                let mut p2 = 0u8;
+                while p2 < 3 {
+                    ck_rowop(3, which, [p0, p1, p2]);
+                    p2 += 1;
+                }
+            }
+            p1 += 1;
+        }
+        p0 += 1;
+    }
+}
 //@ id=C16.e3.map.wf_reachable props=C16 level=bounded tier=quick expect=fail budget=600 desc="vacuity guard: the representation invariant admits a table with a live NaN key, a tombstone and a colliding key"
 #[kani::proof]
 #[kani::unwind(5)]
@@ -281,6 +398,54 @@ fn h_insert_3() {
 #[kani::unwind(5)]
 fn h_set_tombstones_3() {
     ck_set_tombstones(3);
+}
+//@ id=C16.e3.map.drop.cap2 props=C16,C05,C09 level=bounded tier=quick budget=900 bound="capacity 2, every liveness pattern (live / tombstone / empty per cell), live keys fixed distinct numbers, row numbers / start slots / argument symbolic" desc="drop(n): the keys of the first min(n, len) rows become tombstones, the others keep their cell and are renumbered by -n; free cells stay as they were; representation and numbering invariants preserved"
+#[kani::proof]
+#[kani::unwind(6)]
+fn h_drop_2() {
+    ck_rowop_all(2, 0);
+}
+//@ id=C16.e3.map.drop.cap3 props=C16,C05,C09 level=bounded tier=thorough budget=3000 bound="capacity 3, every liveness pattern (live / tombstone / empty per cell), live keys fixed distinct numbers, row numbers / start slots / argument symbolic" desc="drop(n): the keys of the first min(n, len) rows become tombstones, the others keep their cell and are renumbered by -n; free cells stay as they were; representation and numbering invariants preserved"
+#[kani::proof]
+#[kani::unwind(7)]
+fn h_drop_3() {
+    ck_rowop_all(3, 0);
+}
+//@ id=C16.e3.map.take.cap2 props=C16,C05,C09 level=bounded tier=quick budget=900 bound="capacity 2, every liveness pattern (live / tombstone / empty per cell), live keys fixed distinct numbers, row numbers / start slots / argument symbolic" desc="take(n): the keys of the rows from min(n, len) on become tombstones, the others are untouched; free cells stay as they were; representation and numbering invariants preserved"
+#[kani::proof]
+#[kani::unwind(6)]
+fn h_take_2() {
+    ck_rowop_all(2, 1);
+}
+//@ id=C16.e3.map.take.cap3 props=C16,C05,C09 level=bounded tier=thorough budget=3000 bound="capacity 3, every liveness pattern (live / tombstone / empty per cell), live keys fixed distinct numbers, row numbers / start slots / argument symbolic" desc="take(n): the keys of the rows from min(n, len) on become tombstones, the others are untouched; free cells stay as they were; representation and numbering invariants preserved"
+#[kani::proof]
+#[kani::unwind(7)]
+fn h_take_3() {
+    ck_rowop_all(3, 1);
+}
+//@ id=C16.e3.map.reverse.cap2 props=C16,C05,C09 level=bounded tier=quick budget=900 bound="capacity 2, every liveness pattern (live / tombstone / empty per cell), live keys fixed distinct numbers, row numbers / start slots / argument symbolic" desc="reverse: every key keeps its cell and names row len-1-r; free cells stay as they were; representation and numbering invariants preserved"
+#[kani::proof]
+#[kani::unwind(6)]
+fn h_reverse_2() {
+    ck_rowop_all(2, 2);
+}
+//@ id=C16.e3.map.reverse.cap3 props=C16,C05,C09 level=bounded tier=thorough budget=3000 bound="capacity 3, every liveness pattern (live / tombstone / empty per cell), live keys fixed distinct numbers, row numbers / start slots / argument symbolic" desc="reverse: every key keeps its cell and names row len-1-r; free cells stay as they were; representation and numbering invariants preserved"
+#[kani::proof]
+#[kani::unwind(7)]
+fn h_reverse_3() {
+    ck_rowop_all(3, 2);
+}
+//@ id=C16.e3.map.rotate.cap2 props=C16,C05,C09 level=bounded tier=quick budget=900 bound="capacity 2, every liveness pattern (live / tombstone / empty per cell), live keys fixed distinct numbers, row numbers / start slots / argument symbolic" desc="rotate(by), any isize: every key keeps its cell and names row (r - by) mod len; free cells stay as they were; representation and numbering invariants preserved"
+#[kani::proof]
+#[kani::unwind(6)]
+fn h_rotate_2() {
+    ck_rowop_all(2, 3);
+}
+//@ id=C16.e3.map.rotate.cap3 props=C16,C05,C09 level=bounded tier=thorough budget=3000 bound="capacity 3, every liveness pattern (live / tombstone / empty per cell), live keys fixed distinct numbers, row numbers / start slots / argument symbolic" desc="rotate(by), any isize: every key keeps its cell and names row (r - by) mod len; free cells stay as they were; representation and numbering invariants preserved"
+#[kani::proof]
+#[kani::unwind(7)]
+fn h_rotate_3() {
+    ck_rowop_all(3, 3);
 }
 //@ id=C16.e3.map.canary props=C16 level=bounded tier=quick expect=fail budget=600 desc="deliberately false: remove never finds anything"
 #[kani::proof]
